@@ -22,7 +22,9 @@ let mk_meta d f i = { m_depth = z_of d; m_pfp = bytes_of_hex f; m_index = z_of i
 let key_of_fields kind k c d f i : lkey option =
   match kind with
   | "prv" -> Some (XPrv { xk = of_be (bytes_of_hex k); xc = bytes_of_hex c; xm = mk_meta d f i })
-  | "pub" -> Some (XPub { xK = lib_point_of_bytes (bytes_of_hex k); xC = bytes_of_hex c; xM = mk_meta d f i })
+  | "pub" -> (match lib_import_pub (bytes_of_hex k) with
+              | Some pt -> Some (XPub { xK = pt; xC = bytes_of_hex c; xM = mk_meta d f i })
+              | None -> None)   (* Key(strict=True) refuses encodings that are not curve points *)
   | _ -> failwith "key kind"
 
 let key_of_tok t : lkey option =
